@@ -117,7 +117,7 @@ def CollectorCovers (s : State) (a : Addr) (id : PoolId) (amt : Nat) (p : Pool) 
 def NoRangePanic (s : State) (a : Addr) (id : PoolId) (amt : Nat) (p : Pool) (f : Farmer) : Prop :=
   ∀ w, unstakeAt s a id p.lpt amt p f ≠ .error (.panic w)
 
-/-- **C05(d')**: in a state of the bundle (every reachable state, `inv_run`), a user's withdrawal of any amount up to the recorded stake is accepted whenever
+/-- **C05(d')**: in a state of the bundle (every reachable state, `inv_run`), a user's withdrawal of any positive amount up to the recorded stake is accepted whenever
 the reward collector covers the accrued reward and no decimal-range panic occurs: `Unstake`
 never rejects for any other reason — not for the principal, not for the pool update, at any
 height, before or after the pool has ended or been destroyed. -/
